@@ -969,6 +969,7 @@ func (ex *Exec) applyContract(st *State, fc *FuncContract, pc *preparedCall, k f
 	pre := st.clone()
 	preEnv := ex.calleeEnv(pre, fc, fn, pc.recv, pc.args)
 	ex.havocModifies(st, fc, pc)
+	ex.havocCallbackEffects(st, fc, pc)
 	var results []Val
 	if fc.Pure {
 		results = ex.pureCall(st, fc, fn, pc.recv, pc.args)
